@@ -41,9 +41,12 @@ Qed.
 
 Section Safe.
   Variables (partial : bool) (dict : ddict) (srcm : mem).
-  Variables (iend oend lowPrefix : Z) (dictm : mem) (dictSize : Z).
+  Variables (iend oend lowPrefix rlow : Z) (dictm : mem) (dictSize : Z).
   Hypothesis Hsrc : src_bytes srcm.
   Hypothesis HlowP : lowPrefix <= 0.
+  (* the readable region below dst starts at [rlow]: either it is the prefix the decoder
+     was told about, or it is at least 65535 bytes (no offset can reach below it) *)
+  Hypothesis Hrlow : rlow <= lowPrefix \/ (dict = WithPrefix64k /\ rlow <= -65535).
   (* [0 <= iend] is used only by the top-level theorem (to get [0 < iend] after
      the early returns); [0 <= dictSize] turns out not to be needed at all. *)
   Hypothesis Hp64 : dict = WithPrefix64k -> lowPrefix = -65536.
@@ -53,6 +56,11 @@ Section Safe.
   Proof. destruct dict; simpl; intros; try discriminate; auto. Qed.
   Lemma Hextb : is_extdict dict = false -> dictSize = 0.
   Proof. destruct dict; simpl; intros; try discriminate; apply Hext; discriminate. Qed.
+
+  Lemma Hrlow_ext : is_extdict dict = true -> rlow <= lowPrefix.
+  Proof. destruct dict; simpl; intros; try discriminate. destruct Hrlow as [|[? _]]; [assumption|discriminate]. Qed.
+  Lemma Hrlow_w : rlow <= lowPrefix \/ rlow <= -65535.
+  Proof. destruct Hrlow as [|[_ ?]]; auto. Qed.
 
   Lemma readLE16_range p : 0 <= readLE16 srcm p <= 65535.
   Proof. unfold readLE16. pose proof (Hsrc p). pose proof (Hsrc (p + 1)). lia. Qed.
@@ -135,16 +143,16 @@ Section Safe.
       FASTLOOP_SAFE_DISTANCE, WILDCOPYLENGTH, ML_MASK, RUN_MASK in *;
     cbn [post ip op dm ok] in *.
 
-  Ltac fin := unf; abs_terms; pose proof Hp64b; pose proof Hextb; lia.
+  Ltac fin := unf; abs_terms; pose proof Hp64b; pose proof Hextb; pose proof Hrlow_w; pose proof Hrlow_ext; lia.
 
   (* ----- match starting in the external dictionary ----- *)
   Lemma ext_match_ok infast s mat len0 :
     ok s = true -> 0 <= ip s < iend -> 0 <= op s <= oend ->
-    mat < lowPrefix -> lowPrefix <= mat + dictSize -> 0 <= len0 ->
+    mat < lowPrefix -> lowPrefix <= mat + dictSize -> 0 <= len0 -> rlow <= lowPrefix ->
     (infast = true -> op s + len0 <= oend - 64) ->
-    post (ip s) (ext_match partial oend lowPrefix dictm dictSize infast s mat len0).
+    post (ip s) (ext_match partial oend lowPrefix rlow dictm dictSize infast s mat len0).
   Proof.
-    intros Hok Hip Hop Hmat Hmd Hlen Hfast.
+    intros Hok Hip Hop Hmat Hmd Hlen Hrl Hfast.
     unfold ext_match. cbv zeta.
     destruct (op s + len0 >? oend - LASTLITERALS) eqn:Eover; cbv beta iota.
     - hd; [fin|]. hd; fin.
@@ -168,7 +176,7 @@ Section Safe.
     ok s = true -> 0 <= ip s < iend -> 0 <= op s <= oend ->
     (partial = false -> op s + 12 <= oend) ->
     0 <= offset <= 65535 -> 4 <= length ->
-    post (ip s) (safe_match partial dict oend lowPrefix dictm dictSize s offset length).
+    post (ip s) (safe_match partial dict oend lowPrefix rlow dictm dictSize s offset length).
   Proof.
     intros Hok Hip Hop Hnp Hoff Hlen.
     unfold safe_match, first8. cbv zeta.
@@ -191,7 +199,7 @@ Section Safe.
     ok s = true -> 0 <= ip s < iend -> 0 <= op s <= oend ->
     (partial = false -> op s + 12 <= oend) ->
     0 <= offset <= 65535 -> 0 <= ml <= 15 ->
-    post (ip s) (copy_match_lbl partial dict srcm iend oend lowPrefix dictm dictSize s offset ml).
+    post (ip s) (copy_match_lbl partial dict srcm iend oend lowPrefix rlow dictm dictSize s offset ml).
   Proof.
     intros Hok Hip Hop Hnp Hoff Hml.
     unfold copy_match_lbl.
@@ -205,7 +213,7 @@ Section Safe.
   (* ----- safe_literal_copy ----- *)
   Lemma safe_lit_ok s token length :
     ok s = true -> 0 <= ip s <= iend -> 0 <= op s <= oend -> 0 <= length ->
-    post (ip s) (safe_lit partial dict srcm iend oend lowPrefix dictm dictSize s token length).
+    post (ip s) (safe_lit partial dict srcm iend oend lowPrefix rlow dictm dictSize s token length).
   Proof.
     intros Hok Hip Hop Hlen.
     unfold safe_lit. cbv zeta.
@@ -219,7 +227,7 @@ Section Safe.
   Lemma fast_match_ok s offset length :
     ok s = true -> 0 <= ip s < iend -> 0 <= op s ->
     op s + length < oend - 64 -> 0 <= offset <= 65535 -> 4 <= length ->
-    post (ip s) (fast_match partial dict oend lowPrefix dictm dictSize s offset length).
+    post (ip s) (fast_match partial dict oend lowPrefix rlow dictm dictSize s offset length).
   Proof.
     intros Hok Hip Hop Hcpy Hoff Hlen.
     unfold fast_match. cbv zeta.
@@ -232,7 +240,7 @@ Section Safe.
 
   Lemma fast_offset_ok s token :
     ok s = true -> 0 <= ip s -> ip s + 2 < iend -> 0 <= op s <= oend - 32 ->
-    post (ip s) (fast_offset partial dict srcm iend oend lowPrefix dictm dictSize s token).
+    post (ip s) (fast_offset partial dict srcm iend oend lowPrefix rlow dictm dictSize s token).
   Proof.
     intros Hok Hip Hip2 Hop.
     unfold fast_offset. cbv zeta.
@@ -251,7 +259,7 @@ Section Safe.
   (* ----- one iteration of the safe loop ----- *)
   Lemma safe_top_ok s :
     ok s = true -> 0 <= ip s < iend -> 0 <= op s <= oend ->
-    post (ip s + 1) (safe_top partial dict srcm iend oend lowPrefix dictm dictSize s).
+    post (ip s + 1) (safe_top partial dict srcm iend oend lowPrefix rlow dictm dictSize s).
   Proof.
     intros Hok Hip Hop.
     unfold safe_top. cbv zeta.
@@ -271,7 +279,7 @@ Section Safe.
   (* ----- one iteration of the fast loop ----- *)
   Lemma fast_top_ok s :
     ok s = true -> 0 <= ip s < iend -> 0 <= op s <= oend - 64 ->
-    post (ip s + 1) (fast_top partial dict srcm iend oend lowPrefix dictm dictSize s).
+    post (ip s + 1) (fast_top partial dict srcm iend oend lowPrefix rlow dictm dictSize s).
   Proof.
     intros Hok Hip Hop.
     unfold fast_top. cbv zeta.
@@ -289,18 +297,18 @@ Section Safe.
   Lemma run_ok : forall fuel fast s,
     ok s = true -> 0 <= ip s < iend -> 0 <= op s <= oend ->
     (fast = true -> op s <= oend - 64) -> iend - ip s < Z.of_nat fuel ->
-    let '(r, s') := run partial dict srcm iend oend lowPrefix dictm dictSize fuel fast s in
+    let '(r, s') := run partial dict srcm iend oend lowPrefix rlow dictm dictSize fuel fast s in
     ok s' = true /\ (r < 0 \/ 0 <= r <= oend).
   Proof.
     induction fuel as [|f IH]; intros fast s Hok Hip Hop Hfast Hfuel.
     - lia.
     - cbn [run].
       assert (post (ip s + 1)
-                (if fast then fast_top partial dict srcm iend oend lowPrefix dictm dictSize s
-                 else safe_top partial dict srcm iend oend lowPrefix dictm dictSize s)) as Hpost.
+                (if fast then fast_top partial dict srcm iend oend lowPrefix rlow dictm dictSize s
+                 else safe_top partial dict srcm iend oend lowPrefix rlow dictm dictSize s)) as Hpost.
       { destruct fast; [apply fast_top_ok | apply safe_top_ok]; auto; lia. }
-      destruct (if fast then fast_top partial dict srcm iend oend lowPrefix dictm dictSize s
-                else safe_top partial dict srcm iend oend lowPrefix dictm dictSize s)
+      destruct (if fast then fast_top partial dict srcm iend oend lowPrefix rlow dictm dictSize s
+                else safe_top partial dict srcm iend oend lowPrefix rlow dictm dictSize s)
         as [fast' s'|s'|s']; cbn [post] in Hpost.
       + apply IH; lia.
       + lia.
@@ -310,15 +318,16 @@ Section Safe.
 End Safe.
 
 Theorem dec_generic_safe :
-  forall fastloop partial dict srcm iend oend lowPrefix dictm dictSize m0,
-    src_bytes srcm -> 0 <= iend -> lowPrefix <= 0 -> 0 <= dictSize ->
+  forall fastloop partial dict srcm iend oend lowPrefix rlow dictm dictSize m0,
+    src_bytes srcm -> 0 <= iend -> lowPrefix <= 0 ->
+    (rlow <= lowPrefix \/ (dict = WithPrefix64k /\ rlow <= -65535)) -> 0 <= dictSize ->
     (dict = WithPrefix64k -> lowPrefix = -65536) ->
     (dict <> UsingExtDict -> dictSize = 0) ->
-    let '(r, m, ok) := dec_generic fastloop partial dict srcm iend oend lowPrefix dictm dictSize m0 in
+    let '(r, m, ok) := dec_generic fastloop partial dict srcm iend oend lowPrefix rlow dictm dictSize m0 in
     ok = true /\ (r < 0 \/ 0 <= r <= oend).
 Proof.
-  intros fastloop partial dict srcm iend oend lowPrefix dictm dictSize m0
-         Hsrc Hiend HlowP Hds Hp64 Hext.
+  intros fastloop partial dict srcm iend oend lowPrefix rlow dictm dictSize m0
+         Hsrc Hiend HlowP Hrlow Hds Hp64 Hext.
   unfold dec_generic.
   destruct (oend <? 0) eqn:E1; [split; [reflexivity | lia]|].
   destruct (oend =? 0) eqn:E2.
@@ -327,13 +336,14 @@ Proof.
     destruct (get srcm 0 =? 0); split; try reflexivity; lia. }
   destruct (iend =? 0) eqn:E3; [split; [reflexivity | lia]|].
   cbv zeta.
-  pose proof (run_ok partial dict srcm iend oend lowPrefix dictm dictSize
-                Hsrc HlowP Hp64 Hext (Z.to_nat iend + 2)
+  pose proof (run_ok partial dict srcm iend oend lowPrefix rlow dictm dictSize
+                Hsrc HlowP Hrlow Hp64 Hext (Z.to_nat iend + 2)
                 (fastloop && negb (oend <? FASTLOOP_SAFE_DISTANCE)) (mkD 0 0 m0 true)) as H.
   cbn [ip op ok dm] in H.
-  destruct (run partial dict srcm iend oend lowPrefix dictm dictSize (Z.to_nat iend + 2)
+  destruct (run partial dict srcm iend oend lowPrefix rlow dictm dictSize (Z.to_nat iend + 2)
               (fastloop && negb (oend <? FASTLOOP_SAFE_DISTANCE)) (mkD 0 0 m0 true)) as [r s'].
   apply H; unfold FASTLOOP_SAFE_DISTANCE; lia.
 Qed.
 
 Print Assumptions dec_generic_safe.
+
